@@ -44,6 +44,9 @@ impl<'a> Tape<'a> {
     pub fn pick<'b, T>(&mut self, items: &'b [T]) -> &'b T {
         &items[self.below(items.len())]
     }
+    pub fn pick_str(&mut self, items: &[&'static str]) -> &'static str {
+        items[self.below(items.len())]
+    }
     pub fn u64(&mut self) -> u64 {
         let mut v = 0u64;
         for _ in 0..8 {
